@@ -70,7 +70,13 @@ def positive (step, facts, fnode, path, nonempty_len=None):
           return False, "%s - %s == %s but no fact bounds %s below: it may be 0" % (norm(s), step.var, b.id, b.id)
     # explicit `if new == old: raise`
     for l, o, r in facts:
-      if r is not None and o == '!=' and {norm(l), norm(r)} >= {norm(s)}: return True, "explicit %s != previous" % norm(s)
+      if r is not None and o == '!=' and norm(s) in (norm(l), norm(r)):
+        other = r if norm(l) == norm(s) else l
+        # `old = cursor` saved earlier and compared with the new value
+        if isinstance(other, ast.Name) and fnode is not None:
+          d = q.reaching_assign(fnode, other.id)
+          if d and all(v is not None and norm(v) == step.var for v, st_, k in d):
+            return True, "explicit %s != saved previous cursor %s" % (norm(s), other.id)
     return False, "new cursor `%s` is not tied to the old one by any fact on the path" % norm(s)
   if isinstance(s, ast.Name):
     lb = lower_bound(s.id, facts)
@@ -94,7 +100,7 @@ def explicit_progress_assert (facts, loop_test):
         return True, "asserted %s != %s" % (norm(a), b.id)
   return False, ''
 
-def check_loop (repo, func, g, head, after, loop_stmt, env=None, nonempty_len=None, limit=300):
+def check_loop (repo, func, g, head, after, loop_stmt, env=None, nonempty_len=None, limit=300, cursors=None):
   """returns list of (ok, reason, path_lines) one per head->head path (ok None = undecided)"""
   env = env or q.Env()
   paths = q.paths_under(repo, func.module, g, env, head, [head], func.cls, limit=limit)
@@ -110,7 +116,10 @@ def check_loop (repo, func, g, head, after, loop_stmt, env=None, nonempty_len=No
       if ok: res.append((True, why, lines)); continue
     good = None; reasons = []
     for s in steps:
-      relevant = (not drivers) or (s.var in drivers) or s.kind in ('consume', 'drop-prefix') or any(s.var in norm(x) for x in [test] if x is not None)
+      if cursors is not None:
+        relevant = s.kind in ('consume', 'drop-prefix') or s.var in cursors
+      else:
+        relevant = (s.var in drivers) or s.kind in ('consume', 'drop-prefix') or any(s.var in norm(x) for x in [test] if x is not None)
       if not relevant: continue
       ok, why = positive(s, facts, func.node, path, nonempty_len)
       reasons.append("%r: %s" % (s, why))
